@@ -486,7 +486,8 @@ func runC17(c *Check, a *Analysis) {
 		c.Undecided("R-PICK-SOURCE", "no rand.Intn in schedule")
 	}
 
-	c.Rule("R-CURSOR", "every pick of Client.list[Client.pos] is followed on every path to the return by a store into Client.pos of a value computed from Client.pos and len(Client.list)", 3)
+	c.Rule("R-CURSOR", "every pick of Client.list[Client.pos] is followed on every path to the return by a store into Client.pos of a value computed from Client.pos and len(Client.list); the cursor is rewound to 0 only together with a new live list", 3)
+	ruleCursorReset(c, a, "R-CURSOR")
 	nPick := 0
 	eachInstr(sch, func(in ssa.Instruction) {
 		ia, ok := in.(*ssa.IndexAddr)
@@ -536,7 +537,8 @@ func runC17(c *Check, a *Analysis) {
 		c.Undecided("R-CURSOR", fmt.Sprintf("expected cursor picks in schedule, found %d", nPick))
 	}
 
-	c.Rule("R-LEAST-TIME", "minHeap[0] is read only after the heapify call on Client.minHeap; the probe arm depends on the lastTime+Tick test and stores lastTime; heapify permutes only through Swap", 4)
+	c.Rule("R-LEAST-TIME", "minHeap[0] is read only after the heapify call on Client.minHeap; the probe arm depends on the lastTime+Tick test and stores lastTime; heapify permutes only through Swap and starts sifting at the last internal node n/2-1", 4)
+	ruleHeapifyStart(c, a, "R-LEAST-TIME")
 	nRoot := 0
 	eachInstr(sch, func(in ssa.Instruction) {
 		ia, ok := in.(*ssa.IndexAddr)
@@ -1054,7 +1056,8 @@ func runC18(c *Check, a *Analysis) {
 	}
 
 	// ---- R-BOUNDED-WAIT
-	c.Rule("R-BOUNDED-WAIT", "every receive from a waiter's Done channel is a select arm next to a timer armed from Client.DialTimeout; the timer arm unregisters the waiter under Client.lock and yields ErrTimeout", 2)
+	c.Rule("R-BOUNDED-WAIT", "every receive from a waiter's Done channel is a select arm next to a timer armed from Client.DialTimeout; the timer arm unregisters the waiter under Client.lock and yields ErrTimeout; a caller waits at most once (director does not re-enter itself)", 2)
+	ruleNoRewait(c, a, "R-BOUNDED-WAIT")
 	nsel := 0
 	for _, fn := range p.Fns {
 		eachInstr(fn, func(in ssa.Instruction) {
@@ -1185,7 +1188,8 @@ func runC18(c *Check, a *Analysis) {
 	}
 
 	// ---- R-ALIVE-FLAG
-	c.Rule("R-ALIVE-FLAG", "only ErrDial clears target.alive; the detector probes exactly the targets whose alive flag is false", 3)
+	c.Rule("R-ALIVE-FLAG", "only ErrDial clears target.alive; the detector probes exactly the targets whose alive flag is false; a target found not alive during the rebuild is re-marked with ErrDial only", 3)
+	ruleDeadStaysDead(c, a, "R-ALIVE-FLAG")
 	if al := p.Fn("(*target).Alive"); al == nil {
 		c.Undecided("R-ALIVE-FLAG", "(*target).Alive not found")
 	} else {
